@@ -23,11 +23,14 @@ package peer
 //@ contract internal/peer.hashList props C18
 //@   modifies nothing
 
+// checkN(p): how many times the peer table was re-examined (expired entries purged, hash compared, callbacks fired on change)
+//@ ghost checkN(ref) int
 //@ contract internal/peer.(*RedisPubsubPeers).checkHash props C18
 //@   requires p != nil && p.peers != nil
+//@   ghostupdate checkN(p) :: checkN(p) == old(checkN(p)) + 1
 //@   ensures[only-expired-entries-leave] forall j string :: in(p.peers.Items, j) == (in(old(p.peers.Items), j) && !old(p.peers.Items)[j].Expiration.Before(clockNow(p.peers.Clock)))
 //@   ensures[entries-kept] forall j string :: in(p.peers.Items, j) ==> p.peers.Items[j] == old(p.peers.Items)[j]
-//@   modifies p.hash, p.peers.Items
+//@   modifies p.hash, p.peers.Items, checkN(p)
 
 // A membership message is applied to the table: a registration (re)inserts the
 // instance with a fresh expiry, an unregistration removes it; anything undecodable
@@ -36,5 +39,9 @@ package peer
 //@   requires p != nil && p.peers != nil && p.peers.TTL >= 0
 //@   ensures[register-inserts] forall ad string, i string :: !strings.Contains(ad, ",") && msg == "R" + ad + "," + i ==> in(p.peers.Items, i) && p.peers.Items[i].Value == ad && p.peers.Items[i].Expiration == clockNow(p.peers.Clock).Add(p.peers.TTL)
 //@   ensures[unregister-removes] forall ad string, i string :: !strings.Contains(ad, ",") && msg == "U" + ad + "," + i ==> !in(p.peers.Items, i)
+// every membership message, including the periodic refresh of a peer already known, makes the node re-examine
+// its table: that is what notices peers that went silent (their entries expire) and tells the subscribers
+//@   ensures[every-registration-re-examines-the-table] forall ad string, i string :: !strings.Contains(ad, ",") && msg == "R" + ad + "," + i ==> checkN(p) == old(checkN(p)) + 1 && (forall j string :: in(p.peers.Items, j) ==> !p.peers.Items[j].Expiration.Before(clockNow(p.peers.Clock)))
+//@   ensures[every-unregistration-re-examines-the-table] forall ad string, i string :: !strings.Contains(ad, ",") && msg == "U" + ad + "," + i ==> checkN(p) == old(checkN(p)) + 1
 //@   ensures[others-only-expire] forall j string :: in(p.peers.Items, j) && !(exists ad string :: !strings.Contains(ad, ",") && msg == "R" + ad + "," + j) ==> in(old(p.peers.Items), j) && p.peers.Items[j] == old(p.peers.Items)[j]
-//@   modifies p.hash, p.peers.Items
+//@   modifies p.hash, p.peers.Items, checkN(p)
